@@ -3,6 +3,7 @@ module verif/tools
 go 1.22.0
 
 require (
+	github.com/apparentlymart/go-textseg/v15 v15.0.0
 	github.com/hashicorp/hcl-lang v0.0.0
 	github.com/hashicorp/hcl/v2 v2.23.0
 	github.com/zclconf/go-cty v1.16.2
@@ -11,7 +12,6 @@ require (
 
 require (
 	github.com/agext/levenshtein v1.2.1 // indirect
-	github.com/apparentlymart/go-textseg/v15 v15.0.0 // indirect
 	github.com/hashicorp/errwrap v1.0.0 // indirect
 	github.com/hashicorp/go-multierror v1.1.1 // indirect
 	github.com/mitchellh/go-wordwrap v0.0.0-20150314170334-ad45545899c7 // indirect
